@@ -90,10 +90,12 @@ theorem decToInt_showInt (i : Int) : Str.decToInt? (showInt i) = some i := by
 
 /-! ## the emitted text -/
 
-theorem denotes_str_inv (ops : FloatOps F) {t c : Str} (h : Denotes ops t (.str c)) : t = '"' :: (c ++ ['"']) := by
+theorem denotes_str_inv (ops : FloatOps F) {t c : Str} (h : Denotes ops t (.str c)) :
+    t = '"' :: (c ++ ['"']) ∧ c.contains '"' = false := by
   generalize hv : (V.str c : V F) = v at h
   cases h <;> first | cases hv | skip
-  rfl
+  rename_i hc
+  exact ⟨rfl, hc⟩
 
 /-- parenthesising a negative number keeps what the text denotes -/
 theorem denotes_wrap_int (ops : FloatOps F) {t : Str} {n : Int} (h : Denotes ops t (.int n)) :
@@ -117,7 +119,8 @@ theorem pyIntLit_py {m : Mode} {tok : Str} {n : Int} (h : pyIntLit m tok = .ok n
   · cases h
 
 /-- a folded value printed by `str(...)` (py2cpp.py:847), wrapped and rendered, denotes the CPython value it is similar to -/
-theorem emit_of_sim (ops : FloatOps F) (ti : TyInfo) {v v' : V F} (hs : Sim v v') (hfit : ti.fits v') :
+theorem emit_of_sim (ops : FloatOps F) (ti : TyInfo) {v v' : V F} (hs : Sim v v') (hfit : ti.fits v')
+    (hdq : ∀ c, v' = .str c → c.contains '"' = false) :
     Denotes ops (renderLiteralize ti.varType
       (if ti.isStr then unq (if !ti.isStr && Str.startsWith (pyStrOf ops v) ['-'] then '(' :: (pyStrOf ops v ++ [')']) else pyStrOf ops v)
        else (if !ti.isStr && Str.startsWith (pyStrOf ops v) ['-'] then '(' :: (pyStrOf ops v ++ [')']) else pyStrOf ops v))) v' := by
@@ -133,14 +136,14 @@ theorem emit_of_sim (ops : FloatOps F) (ti : TyInfo) {v v' : V F} (hs : Sim v v'
   | str hq =>
     obtain ⟨h1, h2⟩ := hfit
     simp only [renderLiteralize, h1, h2, pyStrOf, Bool.not_true, Bool.false_and, Bool.false_eq_true, if_false, if_true, quoted_unq hq, quote]
-    exact Denotes.str _
+    exact Denotes.str _ (hdq _ rfl)
 
 /-- the core: whenever CPython evaluates the member value to `v'` and the type answer fits `v'`, the emitted text denotes `v'`
-    or `emitValue` fails with an error of class `R`. -/
+    or `emitValue` fails with an error of class `R`. A string value must not contain a double quote (the template does not escape it). -/
 theorem emit_core (m : Mode) (ops : FloatOps F) (env : Env) (R : Err → Prop)
     (hR : ∀ er, Refusal er → R er) (h4 : m.lowerHex = false → R (.fatal .valueError))
     (fuel : Nat) (mem : Member) (ti : TyInfo) (venv : VEnv F) (v' : V F)
-    (hty : mem.ty = .ok ti) (hfit : ti.fits v')
+    (hty : mem.ty = .ok ti) (hfit : ti.fits v') (hq : ∀ c, v' = .str c → c.contains '"' = false)
     (hc : Cons m ops env venv) (hp : evalPy m ops env.known venv (toPy mem.value) = .ok v') :
     match emitValue ops env fuel mem with
     | .ok text => Denotes ops text v'
@@ -176,6 +179,6 @@ theorem emit_core (m : Mode) (ops : FloatOps F) (env : Env) (R : Err → Prop)
     | ok v =>
       rw [hx] at hg
       simp only [Except.map, bind, Except.bind, pure, Except.pure]
-      exact emit_of_sim ops ti hg hfit
+      exact emit_of_sim ops ti hg hfit hq
 
 end Tranp.Evaluator
